@@ -14,15 +14,21 @@ PROGRAMS = {
     "printer_sync": "while True:\n    print('s')\n    vsync('T:step')\n",
     "swallower": ("n = 0\nwhile not stop_flag[0]:\n    try:\n        while not stop_flag[0]:\n            n += 1\n"
                   "            if n % 50 == 0:\n                print('s')\n    except BaseException:\n        pass\n"),
+    # (the short inner loop bounds the volume of output: an unthrottled print loop that cannot be stopped fills the
+    # capture buffer at memory speed, and the grader thread then spends its time copying gigabytes)
     "swallower_loud": ("while not stop_flag[0]:\n    try:\n        while not stop_flag[0]:\n            print('s')\n"
+                       "            for _ in range(3000):\n                pass\n"
                        "    except BaseException:\n        pass\n"),
     "blocked": "gate.acquire()\nprint('woke')\n",
     "importer": "import helper_loop\n",
+    # the clean-up clause fails while the thread unwinds from the injected exit
+    "unwinder": "log = None\ntotal = 0\ntry:\n    while True:\n        total = total + 1\nfinally:\n    log.close()\n",
     "printer_slow": "while True:\n    print('s')\n    for i in range(20000):\n        pass\n",
     # a retry loop that catches Exception (not BaseException): the injected SystemExit must get through
     "catcher": ("n = 0\nwhile not stop_flag[0]:\n    try:\n        while not stop_flag[0]:\n            n += 1\n"
                 "            if n % 50 == 0:\n                print('s')\n    except Exception:\n        pass\n"),
     "catcher_loud": ("while not stop_flag[0]:\n    try:\n        while not stop_flag[0]:\n            print('s')\n"
+                     "            for _ in range(3000):\n                pass\n"
                      "    except Exception:\n        pass\n"),
     "finisher": "for i in range(FIN_N):\n    pass\nprint('s')\n",
     "finisher_sync": "print('s')\nvsync('T:step')\nprint('s')\nvsync('T:step')\n",
@@ -140,7 +146,9 @@ def judge(o, bound_extra=2.0):
         bad.append("Returns")
     if o["elapsed"] > o["allowed"] + bound_extra:
         bad.append("Bounded")
-    timed_out = o["exc_at_return"] in ("TimeoutError", "SystemExit") or o["elapsed"] >= o["allowed"] + 0.5
+    # programs that never end by themselves exceed the limit by construction, whatever the call then reports
+    never_ends = o["kind"].split("_")[0] in ("busy", "printer", "swallower", "blocked", "catcher", "importer", "unwinder")
+    timed_out = never_ends or o["exc_at_return"] in ("TimeoutError", "SystemExit") or o["elapsed"] >= o["allowed"] + 0.5
     o["judged_timed_out"] = timed_out
     if timed_out:
         if o["exc_at_return"] != "TimeoutError":
